@@ -57,7 +57,9 @@ def wide_unit_stage(chk, tier, seed):
         stops = [{"id": "s%d" % j, "location": {"lon": 7.0 + 0.01 * j, "lat": 51.0 + 0.003 * (j % 7)}} for j in range(k)]
         stops.append({"id": "p", "location": {"lon": 7.2, "lat": 51.1}, "precedes": ["d1", "d2", "d3", "d4"]})
         stops += [{"id": "d%d" % j, "location": {"lon": 7.2 + 0.01 * j, "lat": 51.1}} for j in range(1, 5)]
-        inp = {"stops": stops, "vehicles": [{"id": "v0", "speed": 20, "start_location": {"lon": 7.0, "lat": 51.0}}]}
+        # the single stops are initial stops of the vehicle: whenever the unit is planned the route is already long
+        inp = {"stops": stops, "vehicles": [{"id": "v0", "speed": 20, "start_location": {"lon": 7.0, "lat": 51.0},
+                                             "initial_stops": [{"id": "s%d" % j} for j in range(k)]}]}
         st = {"iterations": -1, "duration_ms": 1000, "runs": 1 if i % 2 == 0 else 2, "starts": 0, "det": i % 2, "repeat": 1, "snap": 0,
               "cancel_ms": -1 if i % 2 == 0 else 300}
         blocks.append(S.raw_block("w%d" % i, inp, st))
